@@ -246,9 +246,11 @@ func dec6(b []byte) (out map[string]any, d dhcpv6.DHCPv6) {
 			d = nil
 		}
 	}()
-	d, err := dhcpv6.FromBytes(append([]byte(nil), b...))
+	in := append([]byte(nil), b...)
+	d, err := dhcpv6.FromBytes(in)
 	if err != nil {
 		return map[string]any{"ok": false}, nil
 	}
+	reuse(in) // the caller's buffer receives the next datagram: the decoded value is read after that
 	return map[string]any{"ok": true, "val": proj6(d)}, d
 }
